@@ -50,15 +50,28 @@ def memstr_to_bytes(text):
     return size
 
 
+# if a parent directory vanishes while mkdirp creates its children (concurrent
+# removal of the tree), retry up to MKDIRP_N_RETRY times.
+MKDIRP_N_RETRY = 10
+
+
 def mkdirp(d):
     """Ensure directory d exists (like mkdir -p on Unix)
     No guarantee that the directory is writable.
     """
-    try:
-        os.makedirs(d)
-    except OSError as e:
-        if e.errno != errno.EEXIST:
-            raise
+    for n_attempts_left in reversed(range(MKDIRP_N_RETRY)):
+        try:
+            os.makedirs(d)
+        except OSError as e:
+            if e.errno == errno.EEXIST:
+                return
+            # A concurrent clean-up can remove a parent directory after
+            # os.makedirs created it (or found it) and before it creates the
+            # next level: start again from the top.
+            if e.errno != errno.ENOENT or not n_attempts_left:
+                raise
+        else:
+            return
 
 
 # if a rmtree operation fails in rm_subdirs, wait for this much time (in secs),
